@@ -747,7 +747,11 @@ class Hypergraph:
             first_elem = None
 
         format1, format2, format3, format4 = False, False, False, False
-        if isinstance(first_elem, Iterable):
+        if isinstance(first_edge, (set, frozenset)):
+            # a set of members: formats 2-4 are ordered tuples, so this is format 1
+            # whatever the labels are (e.g. strings mixed with numbers)
+            format1 = True
+        elif isinstance(first_elem, Iterable):
             if all(isinstance(e, str) for e in first_edge):
                 format1 = True
             elif len(first_edge) == 2 and issubclass(type(first_edge[1]), Hashable):
